@@ -383,6 +383,17 @@ func NewBatch(prop, tier string, seed uint64) *Batch {
 				b.Fixed = append(b.Fixed, wholeLife(fr, stubLife[i], hf, true, viaUnitAbove))
 			}
 		}
+		// real keys of greater height: a few signatures each (key generation dominates)
+		spot := []uint8{12}
+		if thorough {
+			spot = []uint8{16, 14, 12}
+		}
+		for _, h := range spot {
+			ep := &Episode{Kind: "xmss", Profile: "c01-real-tall", Height: h, Hash: uint8((seed + uint64(h)) % 3), Stub: false, SeedHex: seedHex(fr), Twin: "none", Drain: "none"}
+			// (fast-forwarding real leaves costs ~13 ms per index: keep the jumps short)
+			ep.Ops = []Op{signOp(fr, false), signOp(fr, false), {K: "jump", J: 40}, {K: "walk", N: 4, Via: "sign", ML: 32, MS: fr.Uint64()}, {K: "jump", J: 200}, signOp(fr, false), signOp(fr, false), signOp(fr, false)}
+			b.Fixed = append([]*Episode{ep}, b.Fixed...)
+		}
 		if !thorough { // one real-leaf whole life at h=10 in quick (the thorough tier has all three)
 			b.Fixed = append(b.Fixed, wholeLife(fr, 10, uint8(seed%3), false, 0))
 		}
